@@ -287,17 +287,18 @@ int main(int argc, char** argv) {
         ev::Ev e(c.op);
         if (c.op == "adv") {
             vclock::advance_ms(c.i("ms", 0));
+            e.i("ms", c.i("ms", 0));
         } else if (c.op == "peer") {   // key=1 registers the shared secret, link=1 opens a session
             if (c.i("key", 1)) give_key(p);
             if (c.i("link", 1)) link_peer(p);
-            e.i("p", p);
+            e.i("p", p).i("key", c.i("key", 1)).i("link", c.i("link", 1));
         } else if (c.op == "link") {
             if (c.i("up", 1)) { if (!W->peers[p].key) give_key(p); link_peer(p); } else unlink_peer(p);
             e.i("p", p).i("up", c.i("up", 1));
         } else if (c.op == "store") {  // the node itself stores chunk c (it can then serve it)
             ChunkData data(static_cast<size_t>(24 + k), static_cast<std::uint8_t>(0x30 + k));
             const auto m = N.store_chunk(cid(k), data, std::chrono::seconds(c.i("ttl", 3600)));
-            e.i("c", k).i("exp", vclock::system_to_ns(m.expires_at) / 1'000'000);
+            e.i("c", k).i("ttl", c.i("ttl", 3600)).i("exp", vclock::system_to_ns(m.expires_at) / 1'000'000);
         } else if (c.op == "src") {    // the origin stores chunk c: manifest + ciphertext for announces / arrivals
             Source& s = W->src[k];
             ChunkData data(static_cast<size_t>(40 + k), static_cast<std::uint8_t>(0x60 + k));
@@ -308,7 +309,7 @@ int main(int argc, char** argv) {
             s.cipher = rec ? rec->data : ChunkData{};
             s.exp_ms = vclock::system_to_ns(s.manifest.expires_at) / 1'000'000;
             s.known = true;
-            e.i("c", k).i("exp", s.exp_ms);
+            e.i("c", k).i("ttl", c.i("ttl", 3600)).i("exp", s.exp_ms);
         } else if (c.op == "req") {
             protocol::RequestPayload r{};
             r.chunk_id = cid(k);
